@@ -6,6 +6,8 @@
                     an implementation `panic` is ALWAYS a property failure                → fail
     senc / xenc     spec: Encrypt then Decrypt gives the data back, another password fails → fail on difference
     lock            spec line computed by running the Lock/Unlock model                    → fail on difference
+    xref            the implementation's ciphertext decrypted by the reference model must give the data → fail
+    xafter          a long sha256-xor operation, then another op in the same process: same answer    → fail
     lockl, lockfix, svcl, svcfix   wallets loaded from sparse / legacy files: spec line computed by running
                     `lockT` / `unlockT` (cipher looked up, default for wallets without a recorded type) → fail
 -/
@@ -133,7 +135,7 @@ def isLight (edits : String) : Bool := (edits.splitOn ",").contains "light"
 
 def isPanic (impl : String) : Bool := impl.startsWith "panic"
 
-def step (op impl : String) : String × Verdict :=
+def stepBase (op impl : String) : String × Verdict :=
   let ws := op.splitOn " "
   match ws with
   | ["b64", d] =>
@@ -157,7 +159,21 @@ def step (op impl : String) : String × Verdict :=
       | some d, some pw =>
           let k := (hex? ((key.drop 4).toString)).getD []
           let m := showB (decryptXor Sky.Hash.sha256 (fun _ => k) d pw)
-          if isPanic impl then ("ok|err, never panic (model: " ++ m ++ ")", .fail) else (m, .unknown)
+          if isPanic impl then ("ok|err, never panic (model: " ++ m ++ ")", .fail)
+          -- a ciphertext the reference construction decrypts must be decrypted, to the same plaintext
+          else (m, if m.startsWith "ok" then .fail else .unknown)
+      | _, _ => ("bad-op", .unknown)
+  | ["xref", d, pw, key] =>
+      -- Encrypt's ciphertext, decrypted by the reference: must give the plaintext back
+      match hex? d, hex? pw with
+      | some d, some pw =>
+          let k := (hex? ((key.drop 4).toString)).getD []
+          let iw := impl.splitOn " "
+          let good := match hex? (field "ct=" iw) with
+            | some ct => showB (decryptXor Sky.Hash.sha256 (fun _ => k) ct pw) == "ok " ++ hexOf d
+            | none => false
+          if good && field "rt=" iw == "same" && iw.head? == some "ok" then (impl, .fail)
+          else ("ok ct=<the reference ciphertext for the nonce drawn> rt=same", .fail)
       | _, _ => ("bad-op", .unknown)
   | [c, _, pw] =>
       if c == "senc" || c == "xenc" then
@@ -186,6 +202,22 @@ def step (op impl : String) : String × Verdict :=
       | some pw, some pw2 => (legacySvcLine (mkWn typ ct 1 1) pw pw2, .fail)
       | _, _ => ("bad-op", .unknown)
   | _ => ("bad-op", .unknown)
+
+/-- `xafter <n> <seed> <pw> :: <op>`: a long sha256-xor round trip, then `<op>` in the same process; the long
+operation must succeed and `<op>` must answer exactly as it does on its own -/
+def step (op impl : String) : String × Verdict :=
+  if op.startsWith "xafter " then
+    match op.splitOn " :: " with
+    | [_, inner] =>
+      let pre := "big=ok_same "
+      if impl.startsWith pre then
+        let (m, v) := stepBase inner (impl.drop pre.length).toString
+        (pre ++ m, v)
+      else
+        let (m, _) := stepBase inner ((impl.splitOn " ").drop 1 |> " ".intercalate)
+        (pre ++ m, .fail)
+    | _ => ("bad-op", .unknown)
+  else stepBase op impl
 
 end Sky.C18
 
